@@ -5,7 +5,7 @@ use super::*;
 pub fn contracts() -> Vec<Contract> {
     vec![
         Contract { name: "c02_append_only", function: "input.rs::{Input::parse, ModItem::parse, ImplItem::parse, parse_matched_braces_or_ending_semi, verbatim_between, ToTokens impls}, entrait_fn/mod.rs::{entrait_for_single_fn, entrait_for_mod}, entrait_impl/mod.rs::output_tokens_for_impl", props: &["C02"], run: c02 },
-        Contract { name: "c08_module_methods", function: "input.rs::{ModItem::parse, peek_pub_fn, peek_fn}, entrait_fn/mod.rs::entrait_for_mod", props: &["C08", "C01"], run: c08 },
+        Contract { name: "c08_module_methods", function: "input.rs::{ModItem::parse, peek_pub_fn, peek_fn}, entrait_fn/mod.rs::entrait_for_mod", props: &["C08", "C01", "C03"], run: c08 },
         Contract { name: "c15_diagnostics_no_panic", function: "lib.rs::invoke and everything below it", props: &["C15"], run: c15 },
     ]
 }
